@@ -1,6 +1,7 @@
 package grid
 
 import (
+	"net"
 	"bytes"
 	"context"
 	"encoding/base64"
@@ -89,20 +90,30 @@ func grpcStatus(err error) string {
 
 // origin is a tiny HTTP origin for FetchBlob.
 type originSrv struct {
-	srv *httptest.Server
-	mu  sync.Mutex
-	obj map[string]originObj
+	srv  *httptest.Server
+	mu   sync.Mutex
+	obj  map[string]originObj
+	open map[net.Conn]bool // connections the origin currently holds open
 }
 
 type originObj struct {
 	body     []byte
 	declLen  int // Content-Length to announce (-1: chunked, no length)
 	statusOK bool
+	status   int // 0: 200
+}
+
+// openConns: connections not yet closed, after the client side dropped its idle ones.
+func (o *originSrv) openConns() int {
+	http.DefaultClient.CloseIdleConnections()
+	o.mu.Lock()
+	defer o.mu.Unlock()
+	return len(o.open)
 }
 
 func newOrigin() *originSrv {
-	o := &originSrv{obj: map[string]originObj{}}
-	o.srv = httptest.NewServer(http.HandlerFunc(func(w http.ResponseWriter, r *http.Request) {
+	o := &originSrv{obj: map[string]originObj{}, open: map[net.Conn]bool{}}
+	o.srv = httptest.NewUnstartedServer(http.HandlerFunc(func(w http.ResponseWriter, r *http.Request) {
 		o.mu.Lock()
 		ob, ok := o.obj[r.URL.Path]
 		o.mu.Unlock()
@@ -110,9 +121,13 @@ func newOrigin() *originSrv {
 			http.NotFound(w, r)
 			return
 		}
+		code := 200
+		if ob.status != 0 {
+			code = ob.status
+		}
 		if ob.declLen >= 0 {
 			w.Header().Set("Content-Length", strconv.Itoa(ob.declLen))
-			w.WriteHeader(200)
+			w.WriteHeader(code)
 			_, _ = w.Write(ob.body)
 			if ob.declLen > len(ob.body) {
 				// announce more than we deliver: drop the connection
@@ -124,12 +139,23 @@ func newOrigin() *originSrv {
 			}
 			return
 		}
-		w.WriteHeader(200)
+		w.WriteHeader(code)
 		if fl, ok := w.(http.Flusher); ok {
 			fl.Flush() // forces chunked encoding: no Content-Length
 		}
 		_, _ = w.Write(ob.body)
 	}))
+	o.srv.Config.ConnState = func(c net.Conn, st http.ConnState) {
+		o.mu.Lock()
+		switch st {
+		case http.StateNew:
+			o.open[c] = true
+		case http.StateClosed, http.StateHijacked:
+			delete(o.open, c)
+		}
+		o.mu.Unlock()
+	}
+	o.srv.Start()
 	return o
 }
 
